@@ -43,6 +43,11 @@ NEEDS = {
  "C36-rename-before-flush": "a crash (or concurrent reader) between the rename and the close of the cache file; uninterrupted runs end bit-identical",
  "C37-stale-node-edge-in-count-mutations": "a mutation above a node that is a root/isolated at the mutation's position but was a child in a tree further left",
  "C38-skip-highest-numbered-root": "the node holding the last id is not the root of any single-root tree (e.g. it is a non-root internal node after renumbering)",
+ "C05b-iqr-cap-compares-natural-parameter": "rescaling on and a node whose re-fitted shape lands in (max_shape, max_shape+1]: small non-default max_shape",
+ "C19b-iqr-early-cap-matches-upper-quantile": "approximate_gamma_iqr with the cheap lower bound of the shape already above max_shape (x2/x1 < (q2/q1)**(1/max_shape))",
+ "C20b-rescale-factors-rebinds-scale": "same patch as C21b, asked for under C20: a star wide enough that the parent's message scale underflows within one sweep (>=45 children, max_shape <= 10), max_iterations % 3 == 2",
+ "C13b-argmax-over-stale-tail": "several trees; a child whose later-visited parent is assigned an earlier timepoint than its first-visited parent and whose inside value peaks beyond it",
+ "C10b-inside-pass-zeroes-first-timepoint": "a user-supplied prior grid with positive mass at the first timepoint for a non-sample node and no mutations below that node",
 }
 for d in sorted(glob.glob(os.path.join(ROOT, "seeded", "*"))):
     name = os.path.basename(d)
